@@ -27,7 +27,7 @@ let fail_exact = function FTotal -> "total" | FConnect -> "connect" | FSockConne
                         | FSockRead -> "sock_read" | FCancelled -> "cancelled"
 let pc_s = function
   | PIdle -> "idle" | PWaitSlot -> "waitslot" | PResolve -> "resolve" | PConnect -> "connect" | PHeaders -> "headers"
-  | PBody true -> "body_reading" | PBody false -> "body_idle" | PDone -> "done" | PFailed (f, _) -> "failed_" ^ fail_exact f
+  | PBody true -> "body_reading" | PBody false -> "body_idle" | PRecv -> "received" | PDone -> "done" | PFailed (f, _) -> "failed_" ^ fail_exact f
 let snapshot s =
   let ids = List.map int_of_n s.ids in
   let tm = List.concat_map (fun t ->
@@ -40,7 +40,7 @@ let snapshot s =
       | PDone -> [Printf.sprintf "%d:ok" t]
       | PFailed (f, a) -> [Printf.sprintf "%d:%s:%d" t (fail_s f) (int_of_z a)]
       | _ -> []) ids in
-  let livel = List.filter (fun t -> live (s.tasks (n_of_int t)).pcs) ids in
+  let livel = List.filter (fun t -> pending (s.tasks (n_of_int t)).pcs) ids in
   let pcs = String.concat "," (List.map (fun t -> Printf.sprintf "%d=%s" t (pc_s (s.tasks (n_of_int t)).pcs)) ids) in
   Printf.sprintf "now=%d acq=%d idle=%d wait=%d open=%d created=%d writers=%d lookup=%d cached=%d timers=%s out=%s live=%s pcs=%s"
     (int_of_z s.now) (List.length s.acq) (List.length s.idle) (List.length s.waiters)
